@@ -479,6 +479,10 @@ impl AwsCustomAuthOptionsBuilder {
     }
 }
 
+#[cfg(feature = "verif")]
+#[allow(missing_docs)]
+pub mod verif;
+
 /// This enumeration allows the user to override the default TLS implementation in the unfortunate case
 /// that they are forced to build the crate with multiple TLS implementations enabled.
 ///
